@@ -284,25 +284,61 @@ def _is_list_name(f, name):
     return False
 
 
+def _emptiness(t, path):
+    """'empty' / 'nonempty' if the test t holds exactly when the list at `path` is empty / non-empty; None otherwise."""
+    if attr_path(t) == path:
+        return "nonempty"
+    if isinstance(t, ast.UnaryOp) and isinstance(t.op, ast.Not):
+        r = _emptiness(t.operand, path)
+        return {"empty": "nonempty", "nonempty": "empty"}.get(r)
+    if isinstance(t, ast.Call) and call_name(t) == "len" and len(t.args) == 1 and attr_path(t.args[0]) == path:
+        return "nonempty"
+    if isinstance(t, ast.Call) and call_name(t) == "bool" and len(t.args) == 1:
+        return _emptiness(t.args[0], path)
+    if isinstance(t, ast.Compare) and len(t.ops) == 1:
+        l, r, op = t.left, t.comparators[0], t.ops[0]
+
+        def is_len(x):
+            return isinstance(x, ast.Call) and call_name(x) == "len" and len(x.args) == 1 and attr_path(x.args[0]) == path
+
+        def const(x):
+            return x.value if isinstance(x, ast.Constant) and isinstance(x.value, int) and not isinstance(x.value, bool) else None
+        if is_len(r) and const(l) is not None:          # c op len(X)  ->  len(X) op' c
+            flip = {ast.Lt: ast.Gt, ast.Gt: ast.Lt, ast.LtE: ast.GtE, ast.GtE: ast.LtE, ast.Eq: ast.Eq, ast.NotEq: ast.NotEq}
+            if type(op) not in flip:
+                return None
+            l, r, op = r, l, flip[type(op)]()
+        if is_len(l) and const(r) is not None:
+            c = const(r)
+            if isinstance(op, ast.Eq) and c == 0 or isinstance(op, ast.Lt) and c == 1 or isinstance(op, ast.LtE) and c == 0:
+                return "empty"
+            if isinstance(op, ast.NotEq) and c == 0 or isinstance(op, ast.Gt) and c == 0 or isinstance(op, ast.GtE) and c == 1:
+                return "nonempty"
+        if isinstance(op, ast.Eq) and attr_path(l) == path and isinstance(r, ast.List) and not r.elts:
+            return "empty"
+        if isinstance(op, ast.NotEq) and attr_path(l) == path and isinstance(r, ast.List) and not r.elts:
+            return "nonempty"
+    return None
+
+
 def _dominated_by_nonempty_test(ctx, f, node, path):
     cfg = ctx.cfg(f)
     for st in cfg.statements():
-        if isinstance(st, ast.If) and st.body and isinstance(st.body[-1], (ast.Return, ast.Raise)) and not st.orelse:
-            t = st.test
-            empty = (isinstance(t, ast.UnaryOp) and isinstance(t.op, ast.Not) and attr_path(t.operand) == path) or \
-                (isinstance(t, ast.Compare) and len(t.ops) == 1 and isinstance(t.ops[0], ast.Eq) and isinstance(t.left, ast.Call)
-                 and call_name(t.left) == "len" and attr_path(t.left.args[0]) == path and isinstance(t.comparators[0], ast.Constant)
-                 and t.comparators[0].value == 0)
-            if empty and cfg.dominates(st, node) and cfg.stmt_of(node) is not st:
-                # no rebinding of the path between the test and the use
-                return True
-    # inside `if self.next_states:` body
-    n = node
-    while n is not None and n is not f.node:
-        p = getattr(n, "parent", None)
-        if isinstance(p, ast.If) and n in p.body and attr_path(p.test) == path:
+        if not isinstance(st, ast.If):
+            continue
+        kind = _emptiness(st.test, path)
+        if kind is None or not cfg.dominates(st, node) or cfg.stmt_of(node) is st:
+            continue
+        leaves = lambda blk: bool(blk) and isinstance(blk[-1], (ast.Return, ast.Raise, ast.Continue, ast.Break))
+        # guard clause: the branch taken for an empty list leaves; the use is not inside that branch
+        empty_branch = st.body if kind == "empty" else st.orelse
+        other_branch = st.orelse if kind == "empty" else st.body
+        inside = lambda blk: any(node is x for b_ in blk for x in ast.walk(b_))
+        if leaves(empty_branch) and not inside(empty_branch):
             return True
-        n = p
+        # the use sits in the branch taken for a non-empty list
+        if inside(other_branch):
+            return True
     return False
 
 
